@@ -58,6 +58,7 @@ type c18Exec struct {
 	results  []string
 	deadlock bool
 	livelock bool
+	spawned  int      // threads started by the library itself
 	unshared []string // objects touched by two threads although outside the Shared set
 	shared   map[uintptr]bool
 }
@@ -93,7 +94,7 @@ func c18Run(sc c18Scenario, prefix []int, shared map[uintptr]bool, fresh bool, r
 	vsync.ResetPools()
 	var cat *impl.Built
 	if sc.Shared != "" {
-		cat = impl.BuildMem("root.jst", c18Docs[sc.Shared])
+		vsync.Seq(func() { cat = impl.BuildMem("root.jst", c18Docs[sc.Shared]) })
 	}
 	x.results = make([]string, len(sc.Threads))
 	s := &vsync.Sched{Prefix: prefix, Shared: shared, FreshPools: fresh, Touched: map[uintptr]uint32{}, OnlyOnce: c18OnlyOnce}
@@ -107,12 +108,13 @@ func c18Run(sc c18Scenario, prefix []int, shared map[uintptr]bool, fresh bool, r
 	}
 	s.Run(fns...)
 	x.points = s.Points
-	x.deadlock, x.livelock = s.Deadlock, s.Livelock
+	x.deadlock, x.livelock = s.Deadlock && !s.SelectLimit, s.Livelock
+	x.spawned = s.SpawnedThreads()
 	x.shared = s.SharedObjects()
 	if shared != nil {
 		for o := range x.shared {
 			if !shared[o] {
-				x.unshared = append(x.unshared, fmt.Sprintf("%#x", o))
+				x.unshared = append(x.unshared, fmt.Sprintf("%#x(%s)", o, s.TouchedOp[o]))
 			}
 		}
 	}
@@ -125,10 +127,12 @@ func c18Sequential(sc c18Scenario) []string {
 	for i, t := range sc.Threads {
 		vsync.ResetPools()
 		var cat *impl.Built
-		if sc.Shared != "" {
-			cat = impl.BuildMem("root.jst", c18Docs[sc.Shared])
-		}
-		c18ThreadBody(t, cat, &out[i])()
+		vsync.Seq(func() {
+			if sc.Shared != "" {
+				cat = impl.BuildMem("root.jst", c18Docs[sc.Shared])
+			}
+			c18ThreadBody(t, cat, &out[i])()
+		})
 	}
 	return out
 }
@@ -152,6 +156,11 @@ func workC18(w *run.W) {
 		if sc.Shared == "" {
 			d := c18Run(sc, nil, nil, false, true)
 			shared = d.shared
+			if d.spawned > 0 {
+				// the library starts goroutines of its own: their private objects are shared with their parent and
+				// differ between executions, so the reduction does not apply
+				shared = nil
+			}
 			if w.Shard == 0 {
 				w.Count(sc.Name+"/all_points", int64(len(d.points)))
 				w.Count(sc.Name+"/shared_objects", int64(len(shared)))
@@ -222,7 +231,7 @@ func workC18(w *run.W) {
 			for i := len(prefix); i < len(x.points); i++ {
 				pt := x.points[i]
 				c := cost
-				if pt.Kind == "pool" || pt.Preempts {
+				if pt.Kind == "pool" || pt.Kind == "select" || pt.Preempts {
 					c++
 				}
 				if c > pass {
@@ -447,13 +456,22 @@ func c18RaceProjects(stride int) []func() *impl.Built {
 }
 
 func runC18(c *chk.Ctx) {
-	exe, nfiles, err := overlay.Build("vsync", overlay.RewriteImport("sync", "sync", "verif/shim/vsync"))
+	exe, nfiles, cinfo, err := overlay.BuildVsync()
 	if err != nil {
+		// the tree uses something of package sync / sync/atomic / channels the shim cannot stand in for: the schedules
+		// are not explored on this tree (reported, not an alarm); the free-running race pass still runs
 		fmt.Fprintln(os.Stderr, err)
-		c.Violation("machinery:vsync-build", "the sync->vsync overlay build failed", "", nil, "", nil)
+		c.Incomplete = append(c.Incomplete, "the cooperative-scheduler variant could not be built for this tree: interleavings are not explored, only the free-running race pass ran")
+		c18RacePass(c)
+		c.Cov["rule"] = "free-running -race pass only (see incomplete_reasons)"
 		return
 	}
 	c.Cov["vsync_overlay_files_rewritten"] = nfiles
+	c.Cov["library_goroutine_and_channel_sites_rewritten"] = len(cinfo.Sites)
+	if len(cinfo.Unsupported) > 0 {
+		c.Cov["concurrency_constructs_not_controlled"] = cinfo.Unsupported
+		c.Incomplete = append(c.Incomplete, fmt.Sprintf("%d concurrency construct(s) of the library are not controlled by the explorer", len(cinfo.Unsupported)))
+	}
 	p := c18Params{Bound: chk.Pick(c, 2, 3), Bound3: chk.Pick(c, 1, 2), MaxExec: chk.Pick(c, 6000, 400000)}
 	pool := *c.Pool
 	pool.Exe = exe
@@ -482,13 +500,15 @@ func runC18(c *chk.Ctx) {
 	if cnt["capped"] > 0 {
 		c.Incomplete = append(c.Incomplete, fmt.Sprintf("execution cap %d per scenario and shard reached %d time(s)", p.MaxExec, cnt["capped"]))
 	}
-	c.Cov["rule"] = "package sync is replaced in jsight-api-core and jsight-schema-core by a cooperative-scheduler shim (build overlay from the current tree): every Mutex/RWMutex/Once/Pool operation, and the instant after Pool.Put, is a scheduling point; sync.Pool answers (reuse LIFO / reuse older / fresh) are choice points too. For each scenario (two threads building different projects and serialising them; two or three threads serialising one catalog; first use of the library from a fresh process) all interleavings with at most `bound` preemptions/pool deviations are executed on the real code; every thread must obtain the result of the same calls run alone; no deadlock, no panic. For independent builds only operations on objects touched by two threads are scheduling points, and every execution asserts that no other object is shared. A diverging schedule is replayed, and replayed again with fresh pool objects to attribute it. The Go race detector runs the same bodies free-running in a separate -race build."
+	c.Cov["rule"] = "package sync is replaced in jsight-api-core and jsight-schema-core by a cooperative-scheduler shim (build overlay from the current tree): every Mutex/RWMutex/Once/Pool/WaitGroup/Cond/Map operation, every sync/atomic operation (shim verif/shim/vatomic), every goroutine start, channel operation and select of the library itself (rewritten into the shim's runtime by the same overlay), and the instant after Pool.Put, is a scheduling point; sync.Pool answers (reuse LIFO / reuse older / fresh) are choice points too. For each scenario (two threads building different projects and serialising them; two or three threads serialising one catalog; first use of the library from a fresh process) all interleavings with at most `bound` preemptions/pool deviations are executed on the real code; every thread must obtain the result of the same calls run alone; no deadlock, no panic. For independent builds only operations on objects touched by two threads are scheduling points, and every execution asserts that no other object is shared. A diverging schedule is replayed, and replayed again with fresh pool objects to attribute it. The Go race detector runs the same bodies free-running in a separate -race build."
 	c.Assumptions = append(c.Assumptions,
 		"memory-model effects below scheduling-point granularity are not modelled; data races are decided by the separate free-running -race pass",
 		"the standard library keeps the real sync package")
 }
 
 func c18FirstUse(c *chk.Ctx, pool *run.Pool, bound int) {
+	maxExec := chk.Pick(c, 600, 6000)
+	capped := false
 	type pt struct {
 		A int    `json:"a"`
 		T int    `json:"t"`
@@ -533,7 +553,7 @@ func c18FirstUse(c *chk.Ctx, pool *run.Pool, bound int) {
 	explore = func(e *ex, prefix []int, cost int) {
 		for i := len(prefix); i < len(e.Points); i++ {
 			cc := cost
-			if e.Points[i].P || e.Points[i].K == "pool" {
+			if e.Points[i].P || e.Points[i].K == "pool" || e.Points[i].K == "select" {
 				cc++
 			}
 			if cc > bound {
@@ -545,6 +565,15 @@ func c18FirstUse(c *chk.Ctx, pool *run.Pool, bound int) {
 					np[k] = e.Points[k].T
 				}
 				np[i] = alt
+				mu.Lock()
+				over := n >= maxExec
+				if over {
+					capped = true
+				}
+				mu.Unlock()
+				if over {
+					return
+				}
 				wg.Add(1)
 				sem <- struct{}{}
 				go func(np []int, cc int) {
@@ -571,6 +600,9 @@ func c18FirstUse(c *chk.Ctx, pool *run.Pool, bound int) {
 	}
 	explore(root, nil, 0)
 	wg.Wait()
+	if capped {
+		c.Incomplete = append(c.Incomplete, fmt.Sprintf("first-use scenario: execution cap %d reached", maxExec))
+	}
 	c.Count("first_use_executions(fresh processes)", int64(n))
 	c.Count("executions", int64(n))
 	c.Cov["first_use_points"] = len(root.Points)
@@ -601,7 +633,7 @@ func Prebuild() {
 	if _, _, err := overlay.Build("vos", overlay.RewriteImport("os", "os", "verif/shim/vos")); err != nil {
 		fmt.Fprintln(os.Stderr, err)
 	}
-	if _, _, err := overlay.Build("vsync", overlay.RewriteImport("sync", "sync", "verif/shim/vsync")); err != nil {
+	if _, _, _, err := overlay.BuildVsync(); err != nil {
 		fmt.Fprintln(os.Stderr, err)
 	}
 	if rw, _, err := overlay.MapRangeRewritesCached(); err == nil {
